@@ -329,18 +329,18 @@ theorem symbolsLoop_ok (p : Parser) :
       exact ih _ lr1 i1 (by omega)
 
 theorem parseTail_ok (p : Parser) (h : Inv b f lr) :
-    Wp (Err b f) (parseTail p) lr (fun _ _ => True) := by
+    Wp (Err b f) (parseTail p) lr (fun _ _ => f = false) := by
   unfold parseTail
   refine Wp.bind (Wp.get ?_)
   refine Wp.bind' (symbolsLoop_ok p _ [] lr h (by omega)) ?_
   rintro ⟨symbols, u⟩ lr1 i1
   refine Wp.bind' (comment_ok p i1) ?_
-  intro c lr2 _
-  exact Wp.pure trivial
+  intro c lr2 hf
+  exact Wp.pure hf
 
 /-- `ascii::Parser::parse` never panics. -/
 theorem parseAscii_ok (p : Parser) (hb : p.bin = false) (h : Inv b f lr) :
-    Wp (Err b f) (parseAscii p) lr (fun _ _ => True) := by
+    Wp (Err b f) (parseAscii p) lr (fun _ _ => f = false) := by
   unfold parseAscii
   have hs0 : SInv p.inputs := Nat.zero_le _
   refine Wp.bind' (whileSome_both (nextLit_ok true) (nextLit_spec true) p.inputs h hs0) ?_
@@ -365,12 +365,12 @@ theorem parseAscii_ok (p : Parser) (hb : p.bin = false) (h : Inv b f lr) :
   refine Wp.bind' (toSymbols_ok s6 hb6 i6 q6) ?_
   intro p' lr7 ⟨i7, _⟩
   refine Wp.bind' (parseTail_ok p' i7) ?_
-  rintro ⟨symbols, c⟩ lr8 _
-  exact Wp.pure trivial
+  rintro ⟨symbols, c⟩ lr8 hf
+  exact Wp.pure hf
 
 /-- `Parser::from_read(..)?.parse()` of the ASCII format never panics. -/
 theorem parseAag_ok (l : LitTy) (hl : l.bits ≤ 64) (h : Inv b f lr) :
-    Wp (Err b f) (parseAag l) lr (fun _ _ => True) := by
+    Wp (Err b f) (parseAag l) lr (fun _ _ => f = false) := by
   unfold parseAag
   refine Wp.bind' (Parser.new_ok false l hl h) ?_
   intro p lr1 ⟨i1, ok⟩
